@@ -46,6 +46,8 @@ def parseCert (p : List String) : Option Cert :=
   match p with
   | ["sreg"] => some .sreg | ["sdereg"] => some .sdereg | ["sdeleg"] => some .sdeleg
   | ["pret"] => some .pret | ["vdeleg"] => some .vdeleg
+  | ["gen"] => some .genesis
+  | ["mir", _, a] => (parseNat? a).map .mir
   | ["preg", st, id] => do
     let id ← parseNat? id
     if st = "n" then some (.preg true id) else if st = "o" then some (.preg false id)
@@ -97,7 +99,7 @@ def parseItems : List String → Acc → Option Acc
     | _ => none
 
 def legacy : Cert → Bool
-  | .sreg | .sdereg | .sdeleg | .pret | .preg _ _ | .pregRetiring _ => true
+  | .sreg | .sdereg | .sdeleg | .pret | .preg _ _ | .pregRetiring _ | .genesis | .mir _ => true
   | _ => false
 
 def handle (line : String) : GV.Line.Out :=
@@ -116,6 +118,7 @@ def handle (line : String) : GV.Line.Out :=
       -- shapes the era cannot express
       if era ≤ 2 && (!(ids t).isEmpty || acc.mint.isSome) then badOp
       else if era ≤ 5 && (!(acc.certs.all legacy) || !acc.props.isEmpty || don ≠ 0) then badOp
+      else if era ≥ 6 && acc.certs.any (fun c => match c with | .genesis => true | .mir _ => true | _ => false) then badOp
       else if era ≤ 3 && (!valid || !acc.coll.isEmpty) then badOp
       else if era ≤ 4 && (acc.collRet.isSome || acc.totalColl.isSome) then badOp
       -- a Dijkstra transaction cannot encode is_valid = false
